@@ -709,7 +709,7 @@ fn exec_with(args: &Args) -> impl Fn(&Case, usize, &mut Out) -> bool + '_ {
 /// {-1.5 .. 1.5} and NaN/inf operands, every delay time 0..max+1 (integral and fractional),
 /// mem, scalar and tuple `self`, captured and assigned upvalues, function values with
 /// state, array indexing inside / outside the bounds. (name, samples, source)
-const TABLES: [(&str, usize, &str); 7] = [
+const TABLES: [(&str, usize, &str); 9] = [
     (
         "operators",
         49,
@@ -741,6 +741,19 @@ const TABLES: [(&str, usize, &str); 7] = [
         "function_values",
         10,
         "fn fb(x){ x + self * 0.5 }\nfn twice(f:(float)->float, x){ f(f(x)) }\nfn pick(c){ if (c) fb else |y| { y * 2.0 } }\nfn dsp(){\n  let h = pick(now % 2)\n  (twice(fb, 1.0), twice(|y| { y * mem(y) }, now), h(3.0), now |> fb)\n}\n",
+    ),
+    (
+        // functions and lambdas with tuple / record parameters in every position, reached through
+        // function values (higher-order call, value chosen at run time, immediate lambda call)
+        "indirect_calls_with_aggregates",
+        8,
+        "fn scale(p:(float,float), k:float){ p.0 * k + p.1 }\nfn scale3(k:float, p:(float,float), m:float){ p.0 * k + p.1 * m }\nfn app2(f:((float,float),float)->float, p:(float,float), k:float){ f(p, k) }\nfn app3(f:(float,(float,float),float)->float, p:(float,float)){ f(2.0, p, 1000.0) }\nfn dsp(){\n  let t = (now, now + 0.25)\n  let g = |p:(float,float), k:float| { p.0 - p.1 * k }\n  let g3 = |a:float, q:(float,float), z:float| { a + q.1 * z + q.0 }\n  let h = if (now % 2) scale else g\n  (app2(scale, t, 100.0), app2(g, t, 3.0), h(t, 7.0), app3(scale3, t), app3(g3, t), (|a:float, q:(float,float), z:float| a + q.1 * z)(1.0, t, 1000.0))\n}\n",
+    ),
+    (
+        // arrays are values: appending yields a new array and leaves every other reference as it was
+        "array_append_aliasing",
+        6,
+        "let ga = [1.0, 2.0]\nfn dsp(){\n  let a = [10.0, 20.0, 30.0]\n  let b = append(a, now)\n  let c = append(b, 5.0)\n  let g2 = append(ga, now)\n  let g3 = append(ga, 7.0)\n  (len(a), len(b), len(c), b[3], c[3], c[4], len(ga), len(g2), g2[2], g3[2], len(g3))\n}\n",
     ),
     (
         "arrays",
